@@ -445,8 +445,9 @@ func (w *World) Step(idx int, ev *Event) *detsim.Violation {
 	}
 	// entries may not appear or disappear
 	for _, n := range after.names() {
-		if _, ok := before[n]; !ok && c19 {
-			return &detsim.Violation{Class: "faulted-file-changed", Sub: "entry-created", Detail: fmt.Sprintf("%s: created %q", where, n)}
+		if _, ok := before[n]; !ok {
+			// no listed property forbids the tool to leave new entries behind (a backup, a temporary file): counted, not judged
+			w.Probes.Add("entry_created_by_tool", 1)
 		}
 	}
 	var judged []string
@@ -476,10 +477,20 @@ func (w *World) Step(idx int, ev *Event) *detsim.Violation {
 				return &detsim.Violation{Class: "faulted-file-changed", Sub: "not-a-go-file", Detail: fmt.Sprintf("%s: %q is not a .go file and was modified", where, n)}
 			}
 			w.Probes.Add("non_go_in_scope", 1)
-		case inD && w.perm[base] != "":
-			// the tool may not write (or not even read) this file: whatever it is, it must stay as it is
+		case c19 && inD && w.perm[base] == "noread":
+			// the tool cannot even read this file: whatever it is, it must stay as it is
 			if a != b {
-				return &detsim.Violation{Class: "faulted-file-changed", Sub: "no-permission", Detail: fmt.Sprintf("%s: %q (%s for the tool's user) was modified", where, n, w.perm[base])}
+				return &detsim.Violation{Class: "faulted-file-changed", Sub: "no-permission", Detail: fmt.Sprintf("%s: %q (unreadable for the tool's user) was modified", where, n)}
+			}
+			w.Probes.Add("no_permission_in_scope", 1)
+		case c19 && inD && w.perm[base] == "ro" && strings.HasSuffix(base, ".go") && parses(content):
+			// a read-only file can be read but not written in place; an implementation that replaces files by
+			// rename may still succeed. Either way nothing but "unchanged" or "its solo result" is acceptable.
+			if a != b {
+				if sr := w.solo.Solo(content); sr.crashed || strings.TrimPrefix(a, "F:") != string(sr.out) {
+					return &detsim.Violation{Class: "neighbour-damaged", Sub: "read-only-file", Detail: fmt.Sprintf("%s: read-only %q is neither unchanged nor what the tool makes of it alone", where, n)}
+				}
+				w.Probes.Add("read_only_file_replaced", 1)
 			}
 			w.Probes.Add("no_permission_in_scope", 1)
 		case !parses(content):
